@@ -383,3 +383,23 @@ Proof.
   unfold nl_fmod, c_rem. destruct (Z.eqb_spec y 0); [discriminate|].
   destruct (Z.eqb_spec y (-1)); [discriminate|]. rewrite andb_false_r. discriminate.
 Qed.
+
+Lemma repeat_bytes_nil n : repeat_bytes n [] = [].
+Proof. induction n as [|n IH]; [reflexivity|exact IH]. Qed.
+
+(* whatever string.rep returns is the n-fold repetition *)
+Lemma rep_val_is_repetition s n r : nl_rep s n = Val r -> r = repeat_bytes (Z.to_nat n) s.
+Proof.
+  unfold nl_rep. destruct (Z.leb_spec n 0).
+  - intros [= <-]. replace (Z.to_nat n) with O by lia. reflexivity.
+  - destruct (Z.eqb_spec n 1) as [->|].
+    + intros [= <-]. cbn. symmetry. apply app_nil_r.
+    + destruct (Z.eqb_spec (slen s) 0) as [E0|].
+      * intros [= <-]. destruct s; [symmetry; apply repeat_bytes_nil|unfold slen in E0; cbn in E0; lia].
+      * destruct ((two64 - 1) / n <? slen s); [discriminate|].
+        destruct (nl_create (u64 (n * slen s))); try discriminate.
+        destruct (u64 (n * slen s) <? n * slen s); [discriminate|]. intros [= <-]. reflexivity.
+Qed.
+
+Lemma gen_facts : NL_GMATCH_HAS_LASTMATCH = true /\ GMATCH_MAX_CAPTURES = 8.
+Proof. split; reflexivity. Qed.
